@@ -40,16 +40,16 @@ Fixpoint pia_loop (port : Z) (rrs : list rr) (s : pia) : pia :=
       (* ares_append_addrinfo_cname walks to the tail *)
       pia_loop port rest
         (mkPia target (p_a s) (p_aaaa s) true
-               (p_cnames s ++ [mkCname (to_int (rr_ttl r)) (Some (rr_name r)) (Some target)])
+               (p_cnames s ++ [mkCname (ttl_to_int (rr_ttl r)) (Some (rr_name r)) (Some target)])
                (p_nodes s))
     | RD_A a =>
       pia_loop port rest
         (mkPia (p_host s) true (p_aaaa s) (p_cname s) (p_cnames s)
-               (p_nodes s ++ [mkNode LEG_AF_INET a port (to_int (rr_ttl r))]))
+               (p_nodes s ++ [mkNode LEG_AF_INET a port (ttl_to_int (rr_ttl r))]))
     | RD_AAAA a =>
       pia_loop port rest
         (mkPia (p_host s) (p_a s) true (p_cname s) (p_cnames s)
-               (p_nodes s ++ [mkNode LEG_AF_INET6 a port (to_int (rr_ttl r))]))
+               (p_nodes s ++ [mkNode LEG_AF_INET6 a port (ttl_to_int (rr_ttl r))]))
     | _ => pia_loop port rest s
     end
   end.
@@ -390,7 +390,7 @@ Fixpoint uri_loop (rrs : list rr) (acc : list uri_reply) : list uri_reply :=
   | r :: rest =>
     if negb (is_in r) then uri_loop rest acc
     else match rr_data r with
-    | RD_URI prio weight target => uri_loop rest (acc ++ [mkUri prio weight (to_int (rr_ttl r)) target])
+    | RD_URI prio weight target => uri_loop rest (acc ++ [mkUri prio weight (ttl_to_int (rr_ttl r)) target])
     | _ => uri_loop rest acc
     end
   end.
